@@ -1,0 +1,13 @@
+//go:build verif
+
+package main
+
+// verifSink receives verification events when a harness installs it. It may block:
+// a blocking sink doubles as a scheduler gate.
+var verifSink func(ev string, args ...any)
+
+func verifEvent(ev string, args ...any) {
+	if sink := verifSink; sink != nil {
+		sink(ev, args...)
+	}
+}
